@@ -240,26 +240,30 @@ def make_leaf(shape, layout, seed, half=False):
             v = v + 0.5
         return v
 
-    if n == 0 or layout == "contiguous":
-        return vals(n).reshape(shape)
+    # every entry is carved from a buffer at least twice as large as the entry: a disjoint view of the same buffer (the
+    # "sibling row" of a pre-allocated buffer) exists for it, see sibling_of
+    if n == 0:
+        return vals(0).reshape(shape)
+    if layout == "contiguous":
+        return vals(2 * n)[:n].reshape(shape)
     if layout == "offset":
-        return vals(n + 3)[3:].reshape(shape)
+        return vals(2 * n + 3)[3:3 + n].reshape(shape)
     if layout == "strided":
-        base = vals(2 * n + 1)
+        base = vals(4 * n + 2)
         return base.as_strided(shape, [2 * s for s in contiguous_strides(shape)], 1)
     if layout == "transposed":
         if len(shape) < 2:
             return make_leaf(shape, "strided", seed, half)
         rs = [shape[1], shape[0]] + shape[2:]
-        return vals(n).reshape(rs).transpose(0, 1)
+        return vals(2 * n)[:n].reshape(rs).transpose(0, 1)
     if layout == "expanded":
         # stride 0 along the first dim of size > 1
         for d, s in enumerate(shape):
             if s > 1:
                 small = shape[:d] + [1] + shape[d + 1:]
                 m = n // s
-                return vals(m).reshape(small).expand(shape)
-        return vals(n).reshape(shape)
+                return vals(2 * m)[:m].reshape(small).expand(shape)
+        return vals(2 * n)[:n].reshape(shape)
     raise ValueError(layout)
 
 
@@ -457,8 +461,10 @@ def gen_index(bs, rng, adv):
 
 
 class Call:
-    def __init__(self, run, desc, args=(), expect=None, exact=True, rule=None, affected=None, existing_only=False, flags=None):
+    def __init__(self, run, desc, args=(), expect=None, exact=True, rule=None, affected=None, existing_only=False, flags=None,
+                 alias=None):
         self.flags = dict(flags or {})
+        self.alias = alias      # ([(dest, value)], torch reference op): the value aliases the destination's storage
         self.run, self.desc, self.args = run, desc, list(args)
         self.expect, self.exact, self.rule, self.affected = expect, exact, rule, affected
         self.existing_only = existing_only
@@ -860,6 +866,216 @@ def _set_missing(td, rng):
     val = fresh_like(T()["torch"].zeros(bs + [2]), 2600)
     return Call(lambda x: x.set_(p0 if len(p0) > 1 else p0[0], val), {"m": "set_", "key": list(p0), "missing": True}, args=[val],
                 flags={"missing_intermediate_node": missing_parent})
+
+
+# ---------------------------------------------------------------------------------------------- in-place writes whose VALUE aliases the destination
+def extent(t):
+    c = cells(t)
+    return (min(c), max(c) - min(c) + 1) if c else (0, 0)
+
+
+def sibling_of(t, how="sibling"):
+    """a view of the SAME storage as t with t's shape: 'sibling' = disjoint cells (the next row of the buffer), 'overlap' = shifted by
+    one cell (partially overlapping), 'same' = t itself, 'expanded' = one row of the sibling expanded to t's shape,
+    'expanded-self' = t's own first row expanded over t.  None when the storage has no room for it."""
+    if t.numel() == 0:
+        return None
+    if how == "same":
+        return t
+    lo, span = extent(t)
+    total = t.untyped_storage().nbytes() // t.element_size()
+    if how == "sibling":
+        off = t.storage_offset() + span
+    elif how == "overlap":
+        off = t.storage_offset() + 1
+    elif how in ("expanded", "expanded-self"):
+        if t.dim() == 0 or t.shape[0] < 2:
+            return None
+        base = sibling_of(t, "sibling") if how == "expanded" else t
+        return None if base is None else base[:1].expand_as(t)
+    else:
+        raise ValueError(how)
+    if lo - t.storage_offset() + off + span > total:
+        return None
+    return t.as_strided(tuple(t.shape), tuple(t.stride()), off)
+
+
+ALIAS_HOWS = ["sibling", "sibling", "same", "overlap", "expanded", "expanded-self"]
+
+
+def twin_reference(pairs, refop):
+    """what torch leaves in the storage when `refop(dest, value)` runs on plain tensors laid out exactly like the real ones
+    (same storage content, same views).  pairs: [(dest, value)], value in dest's storage or in its own.
+    Returns {storage ptr of dest: expected flat content} or the exception class name torch raised."""
+    torch = T()["torch"]
+    twins = {}
+
+    def tw(x):
+        p = sptr(x)
+        if p not in twins:
+            twins[p] = flat(x).clone()
+        return twins[p].as_strided(tuple(x.shape), tuple(x.stride()), x.storage_offset())
+    try:
+        import warnings
+        with warnings.catch_warnings():
+            warnings.simplefilter("ignore")
+            for d, v in pairs:
+                refop(tw(d), tw(v) if isinstance(v, torch.Tensor) and v.numel() else v)
+    except Exception as e:  # noqa: BLE001
+        return type(e).__name__
+    return {sptr(d): twins[sptr(d)] for d, _ in pairs}
+
+
+def _own_leaf(td, p):
+    """the td-level entry when it is (a view of) a tensor the container is built on, else None (lazy stacks stack copies)"""
+    try:
+        d = unwrap(td).get(p)
+    except Exception:  # noqa: BLE001
+        return None
+    if not is_tensor(d) or d.numel() == 0:
+        return None
+    own = {sptr(v) for _, v in existing(td)}
+    return d if sptr(d) in own else None
+
+
+def _alias_value(td, p, rng, how=None):
+    d = _own_leaf(td, p)
+    if d is None:
+        return None, None, None
+    how = how or rng.choice(ALIAS_HOWS)
+    v = sibling_of(d, how)
+    if v is None:
+        how, v = "same", d
+    return d, v, how
+
+
+@op("set_:alias", "set_", "inplace")
+def _set_alias(td, rng):
+    paths = leafpaths(td)
+    if not paths:
+        return None
+    p0 = rng.choice(paths)
+    d, v, how = _alias_value(td, p0, rng)
+    if d is None:
+        return None
+    key = p0 if len(p0) > 1 else p0[0]
+    m = rng.choice(["set_", "set(inplace=True)"])
+    f = (lambda x: x.set_(key, v)) if m == "set_" else (lambda x: x.set(key, v, inplace=True))
+    return Call(f, {"m": m, "key": list(p0), "value": "alias:" + how}, args=[v], flags={"alias": how},
+                alias=([(d, v)], lambda a, b: a.copy_(b)))
+
+
+@op("set_:alias-other-key", "set_", "inplace")
+def _set_alias_other_key(td, rng):
+    """the value is the ENTRY OF ANOTHER KEY carved from the same buffer (obs <- next_obs of one pre-allocated buffer)"""
+    paths = [p for p in leafpaths(td) if len(p) == 1]
+    if not paths or unwrap(td).is_locked or isinstance(unwrap(td), T()["Sub"]):
+        return None
+    p0 = rng.choice(paths)
+    d = _own_leaf(td, p0)
+    v = sibling_of(d, "sibling") if d is not None else None
+    if v is None:
+        return None
+    try:
+        td.set("zsibling", v)          # set-up (before the snapshot): a second key bound to the sibling view
+    except Exception:  # noqa: BLE001
+        return None
+    return Call(lambda x: x.set_(p0[0], x.get("zsibling")), {"m": "set_", "key": list(p0), "value": "alias:entry-of-another-key"},
+                args=[v], flags={"alias": "other-key"}, alias=([(d, v)], lambda a, b: a.copy_(b)))
+
+
+@op("update_:alias", "update_", "inplace")
+def _update_alias(td, rng):
+    paths = leafpaths(td)
+    if not paths:
+        return None
+    sel = _subset(paths, rng)
+    how = rng.choice(ALIAS_HOWS)
+    pairs, d_ = [], {}
+    for p in sel:
+        d, v, _ = _alias_value(td, p, rng, how)
+        if d is None:
+            return None
+        pairs.append((d, v))
+        cur = d_
+        for k in p[:-1]:
+            cur = cur.setdefault(k, {})
+        cur[p[-1]] = v
+    try:
+        src = T()["TD"](d_, batch_size=td_bs(td))
+    except Exception:  # noqa: BLE001
+        return None
+    m = rng.choice(["update_", "copy_" if len(sel) == len(paths) else "update_", "update(inplace=True)"])
+    f = {"update_": lambda x: x.update_(src), "copy_": lambda x: x.copy_(src), "update(inplace=True)": lambda x: x.update(src, inplace=True)}[m]
+    # the order of the writes is the receiver's key order for update_/copy_ and the source's for update; with disjoint entries it is immaterial
+    return Call(f, {"m": m, "keys": [list(p) for p in sel], "value": "alias:" + how}, args=[src], flags={"alias": how},
+                alias=(pairs, lambda a, b: a.copy_(b)))
+
+
+@op("apply_:alias", "apply_", "inplace")
+def _apply_alias(td, rng):
+    paths = leafpaths(td)
+    if not paths:
+        return None
+    how = rng.choice(["sibling", "sibling", "overlap", "expanded"])
+    pairs = []
+    for p in paths:
+        d, v, _ = _alias_value(td, p, rng, how)
+        if d is None:
+            return None
+        pairs.append((d, v))
+
+    def fn(t):
+        v = sibling_of(t, how)
+        return t if v is None else v
+    return Call(lambda x: x.apply_(fn), {"m": "apply_", "fn": "alias:" + how}, flags={"alias": how},
+                alias=(pairs, lambda a, b: a.copy_(b)))
+
+
+@op("set_at_:alias", "set_at_", "inplace")
+def _set_at_alias(td, rng):
+    paths = leafpaths(td)
+    idx = _index_for_write(td, rng)
+    if not paths or idx is None:
+        return None
+    p0 = rng.choice(paths)
+    d, v, how = _alias_value(td, p0, rng, rng.choice(["sibling", "sibling", "same", "overlap"]))
+    if d is None:
+        return None
+    try:
+        vi = v[idx]
+    except Exception:  # noqa: BLE001
+        return None
+    key = p0 if len(p0) > 1 else p0[0]
+    return Call(lambda x: x.set_at_(key, vi, idx), {"m": "set_at_", "key": list(p0), "idx": _desc_idx(idx), "value": "alias:" + how},
+                args=[vi], flags={"alias": how}, alias=([(d, v)], lambda a, b: a.__setitem__(idx, b[idx])))
+
+
+@op("add_:alias", "add_", "inplace")
+def _add_alias(td, rng):
+    paths = own_order(td)
+    if not paths:
+        return None
+    how = rng.choice(["sibling", "sibling", "same", "expanded"])
+    pairs, d_ = [], {}
+    for p in paths:
+        d, v, _ = _alias_value(td, p, rng, how)
+        if d is None:
+            return None
+        pairs.append((d, v))
+        cur = d_
+        for k in p[:-1]:
+            cur = cur.setdefault(k, {})
+        cur[p[-1]] = v
+    try:
+        src = T()["TD"](d_, batch_size=td_bs(td))
+        if T()["is_tc"](td):
+            src = type(td).from_tensordict(src)
+    except Exception:  # noqa: BLE001
+        return None
+    name = rng.choice(["add_", "mul_", "sub_"])
+    return Call(lambda x: getattr(x, name)(src), {"m": name, "other": "alias:" + how}, args=[src], flags={"alias": how},
+                alias=(pairs, lambda a, b: getattr(a, name)(b)))
 
 
 # ---------------------------------------------------------------------------------------------- out-of-place: fresh results
@@ -1398,6 +1614,43 @@ def _getitem_any(td, rng):
     return Call(lambda x: x[idx], {"m": "__getitem__", "idx": _desc_idx(idx)}, rule=lambda leaf: leaf[idx])
 
 
+def _c03():
+    from . import c03
+    return c03
+
+
+def c03_index(bs, rng):
+    """an index of the C03 grammar (ints, slices, None, Ellipsis, bare range / list / numpy array / integer tensor / 0-dim tensor /
+    boolean mask, alone and in tuples).  Returns (index for the tensordict, index for an entry, descriptors, single)."""
+    c03 = _c03()
+    descs = c03.gen_index(rng, tuple(bs))
+    if not descs:
+        descs = [rng.choice([["range", min(2, bs[0])], ["list", [0]], ["sl", None, None, None]])] if bs else [["non"]]
+    if rng.random() < 0.25 and bs and bs[0] > 0:
+        # the bare array-like forms, alone
+        n = bs[0]
+        descs = [rng.choice([["range", rng.randint(1, n)], ["list", rng.sample(range(n), rng.randint(1, n))],
+                             ["np", rng.sample(range(n), rng.randint(1, n))], ["ten", rng.sample(range(n), rng.randint(1, n))],
+                             ["mask", [rng.random() < 0.6 for _ in range(n)]]])]
+    single = len(descs) == 1 and rng.random() < 0.7
+    py = c03.to_py(descs)
+    idx = py[0] if single else py
+    leaf_idx = c03.along_batch(idx, descs, len(bs))
+    return idx, leaf_idx, descs, single
+
+
+@op("__getitem__:c03-grammar", "__getitem__", "rule")
+def _getitem_c03(td, rng):
+    """every index form, classified by what TORCH does with the same index on the entry: the result shares memory with the
+    source iff torch's does"""
+    bs = td_bs(td)
+    if not bs:
+        return None
+    idx, leaf_idx, descs, single = c03_index(bs, rng)
+    return Call(lambda x: x[idx], {"m": "__getitem__", "index": descs, "single": single}, rule=lambda leaf: leaf[leaf_idx],
+                flags={"index_forms": sorted({d[0] for d in descs})})
+
+
 # ---------------------------------------------------------------------------------------------- structure / metadata: no cell is written
 @op("set:rebind", "set", "struct")
 def _set_rebind(td, rng):
@@ -1746,6 +1999,7 @@ def _run_case(case, fx):
             out["status"] = "seen-raised:" + _exc(e)
             return out
     U.snapshot()
+    alias_exp = twin_reference(call.alias[0], call.alias[1]) if call.alias is not None else None
     # ---- the call
     try:
         res = call.run(td)
@@ -1787,6 +2041,20 @@ def _run_case(case, fx):
                 fail("inplace:wrote-outside-own-entries", {"cells": cs[:10], "in_own_storage": p_ in fp0})
                 break
         out["obs"]["legit_reject"] = overlap
+        if call.alias is not None:
+            # the value aliases the destination's storage: the held tensors must hold exactly what torch's own in-place
+            # kernel leaves when it runs on plain tensors laid out the same way
+            out["obs"]["alias_reference"] = "ok" if isinstance(alias_exp, dict) else alias_exp
+            if isinstance(alias_exp, dict) and status == "ok":
+                for (d_, v_) in call.alias[0]:
+                    want, have = alias_exp[sptr(d_)], flat(d_)
+                    if not torch.equal(bits(want), bits(have)):
+                        tw = want.as_strided(tuple(d_.shape), tuple(d_.stride()), d_.storage_offset())
+                        fail("inplace:existing-tensor-does-not-hold-new-value",
+                             {"value": call.desc, "want": tw.reshape(-1).tolist()[:12], "have": d_.reshape(-1).tolist()[:12]})
+                        break
+            elif isinstance(alias_exp, dict):
+                out["obs"]["alias_rejected_although_torch_accepts"] = True
         if status == "ok" and not overlap:
             try:
                 for p in leafpaths(td):
